@@ -15,9 +15,9 @@ ARCHES = ["x86_64", "ppc64le", "s390x"]
 
 _nm = st.one_of(st.sampled_from(["glibc", "glibc-devel", "python3-six", "kernel-rt-debug", "lib2to3", "a", "gtk+3", "x-1"]),
                 st.lists(st.from_regex(r"[A-Za-z0-9._+]{1,5}", fullmatch=True), min_size=1, max_size=3).map("-".join))
-_vr = st.one_of(st.sampled_from(["2.18", "11.fc20", "1.el7_9", "0.1.rc9", "1~beta", "7"]), st.from_regex(r"[A-Za-z0-9._+~^]{1,6}", fullmatch=True))
+_vr = st.one_of(st.sampled_from(["2.18", "11.fc20", "1.el7_9", "0.1.rc9", "1~beta", "7", "1.rpmfusion.fc39", "8.95.rpm4", "1.src", "2.noarch"]), st.from_regex(r"[A-Za-z0-9._+~^]{1,6}", fullmatch=True))
 _ep = st.one_of(st.integers(0, 3), st.integers(0, 10 ** 6))
-_prefix = st.sampled_from(["", "", "", "Packages/g/", "/abs/dir/", "a-b/c.d/", "host:/srv/", "2020-01-01T10:00/"])
+_prefix = st.sampled_from(["", "", "", "Packages/g/", "/abs/dir/", "a-b/c.d/", "host:/srv/", "2020-01-01T10:00/", "mnt/koji:prod/f20/", "http://kojipkgs:80/packages/", "a/b/c:d/e/", "x.rpm/"])
 
 
 def nevra_text(d):
